@@ -207,6 +207,7 @@ EXTRA_MODULES = {
     "C16": ["Rawr.Proofs.RustSearchAgree", _TXT, _TXT + "_Go", _TXT + "_SetFen", _TXT + "_Uci"],
     "C17": ["Rawr.Proofs.RustFnsAgree", "Rawr.Proofs.RustImpAgree"],
     "C18": ["Rawr.Proofs.RustSearchAgree"],
+    "C20": ["Rawr.Proofs.PyStyleAgree", "Rawr.Proofs.PyStyleAgree_Game"],
     "C19": ["Rawr.Proofs.RustImpAgree", "Rawr.Proofs.RustSearchAgree", "Rawr.Proofs.RustSearchAgree_Sort", "Rawr.Proofs.RustSearchAgree_QSearch"],
 }
 
@@ -216,11 +217,13 @@ def run_rust2lean():
     rc2, out2 = sh([sys.executable, os.path.join(VERIF, "tools", "rust2lean_imp.py")])
     rc3, out3 = sh([sys.executable, os.path.join(VERIF, "tools", "rust2lean_search.py")])
     rc4, out4 = sh([sys.executable, os.path.join(VERIF, "tools", "rust2lean_text.py")])
+    rc5, out5 = sh([sys.executable, os.path.join(VERIF, "tools", "py2lean_style.py")])
     global TRANSLATORS
     TRANSLATORS = {"RustFnsAgree": (rc == 0, out.strip()), "RustImpAgree": (rc2 == 0, out2.strip()),
                    "RustSearchAgree": (rc3 == 0 and rc2 == 0, (out3.strip() if rc3 else out2.strip())),
-                   "RustTextAgree": (rc4 == 0 and rc2 == 0, (out4.strip() if rc4 else out2.strip()))}
-    return rc == 0 and rc2 == 0 and rc3 == 0 and rc4 == 0, " | ".join(x.strip() for x in (out, out2, out3, out4))
+                   "RustTextAgree": (rc4 == 0 and rc2 == 0, (out4.strip() if rc4 else out2.strip())),
+                   "PyStyleAgree": (rc5 == 0, out5.strip())}
+    return rc == 0 and rc2 == 0 and rc3 == 0 and rc4 == 0 and rc5 == 0, " | ".join(x.strip() for x in (out, out2, out3, out4, out5))
 
 
 TRANSLATORS = {}
